@@ -149,13 +149,13 @@ claim("C09",
       "(after fixes 35be7da, f99b060). The repair is modelled NON-atomically (read+deal, then commit+report+pop): client writes may land in between - the repair "
       "then loses its compare-and-swap, its dealt revision is reported invalid, the head is popped and the client's write stays (repair_loses_to_client_write). "
       "Correspondence: every single fault placement x {applied, not} x repair outcomes on create/update/delete, 63 stepped interleavings of the repair with client "
-      "writes / compactions / a second queued write, + random sequences, three engines.",
+      "writes / compactions / a second queued write, the repair's own read failing once (failed_get: the head stays), + random sequences, three engines. OrderC09 also ties, by a regenerated fact, that the repair waits RetryInterval for EVERY entry it examines (a commit landing shortly after its 'unknown' answer is outside the models' fault oracle).",
       TB + "Keys over the alphabet (the counterexample for keys containing the split byte is proved); non-empty, non-tombstone values; granularity: the repair's read+deal and its commit+report+pop are single steps.",
       "Lean 4 proof (coverage invariant over all schedules with faults) + fault-placement differential correspondence", "DESIGN.md §5 C09")
 claim("C15",
       "Lean theorems KB.Props.C15: IF the engine timestamp a new leader starts from dominates every stored revision THEN its state is a well-formed initial "
       "state of KB.Sys (so C01/C02/C04 apply), every revision it hands out exceeds every stored one and reads at its revision see everything. The clock "
-      "hypothesis is assumed and CHECKED on every run for memkv/tikv; for Badger it is false (proved counter model + model witness) and the check reproduces it: known finding.",
+      "hypothesis is assumed and CHECKED on every run for memkv/tikv; for Badger it is false (proved counter model + model witness) and the check reproduces it: known finding. The real Campaign() is run over a held, a missing and a RELEASED lock record, with the started-leading callback ahead of the renew loop's first poll, and with the engine-timestamp read failing (also below the storage-metrics wrapper).",
       TB + "Engine clocks (wall clock, PD TSO) are outside the model; restarts are judged by an oracle on the implementation only (revisions are wall-clock values).",
       "Lean 4 proof (conditional on the clock hypothesis, which each run checks) + restart scenarios on every engine", "DESIGN.md §5 C15")
 claim("C18",
